@@ -302,10 +302,179 @@ fn run_inv(c: &InvCase) -> Verdict {
     pass(moved != c.f, labels)
 }
 
+// ---------------------------------------------------------------------------------------------
+// inputs whose minimum is reached at a chosen position of the library's walk
+
+#[derive(Clone, Debug, Hash, Serialize, Deserialize)]
+pub struct PosCase {
+    pub fam: Fam,
+    pub group: Group,
+    /// a generated function; its (library) representative c is moved so that the walk meets c at
+    /// the chosen position
+    pub r: Tt,
+    /// 0..=11: first, second, third, last, last-1, middle-1, middle, middle+1, block boundary-1,
+    /// block boundary, block boundary+1, uniformly drawn (pos_raw)
+    pub pos_class: u8,
+    pub pos_raw: u64,
+}
+
+/// number of compare points of the library's walk and the group element (perm, mask incl. output
+/// bit) in effect at compare point `idx`, replayed from the sequences the hook exposes
+pub fn walk_element(n: usize, g: Group, idx: u64) -> (u64, Vec<u8>, u32) {
+    let (swaps, flips) = volute::verif_walk_sequences(n);
+    let mut perm: Vec<u8> = (0..n as u8).collect();
+    let mut mask: u32 = 0;
+    let total: u64 = match g {
+        Group::P => swaps.len() as u64,
+        Group::N => 2 * flips.len() as u64,
+        Group::Npn => 2 * swaps.len() as u64 * flips.len() as u64,
+    };
+    let mut k = 0u64;
+    match g {
+        Group::P => {
+            for s in &swaps {
+                perm.swap(*s as usize, *s as usize + 1);
+                if k == idx {
+                    return (total, perm, mask);
+                }
+                k += 1;
+            }
+        }
+        Group::N => {
+            for f in &flips {
+                mask ^= 1 << f;
+                for _ in 0..2 {
+                    mask ^= 1 << n;
+                    if k == idx {
+                        return (total, perm, mask);
+                    }
+                    k += 1;
+                }
+            }
+        }
+        Group::Npn => {
+            let block = 2 * flips.len() as u64;
+            for s in &swaps {
+                perm.swap(*s as usize, *s as usize + 1);
+                if idx >= k + block {
+                    // the flip cycle is closed: skip the whole block
+                    k += block;
+                    continue;
+                }
+                for f in &flips {
+                    mask ^= 1 << f;
+                    for _ in 0..2 {
+                        mask ^= 1 << n;
+                        if k == idx {
+                            return (total, perm, mask);
+                        }
+                        k += 1;
+                    }
+                }
+            }
+        }
+    }
+    (total, (0..n as u8).collect(), 0)
+}
+
+/// the function f with apply(f, perm, mask) == c
+pub fn unapply(c: &Tt, perm: &[u8], mask: u32) -> Tt {
+    let n = c.n;
+    let out = (mask >> n) & 1 != 0;
+    Tt::from_fn(n, |x| {
+        let mut y = 0usize;
+        for i in 0..n {
+            y |= (((x >> perm[i]) & 1) ^ ((mask as usize >> i) & 1)) << i;
+        }
+        c.get(y) ^ out
+    })
+}
+
+pub fn position(total: u64, block: u64, class: u8, raw: u64) -> u64 {
+    if total == 0 {
+        return 0;
+    }
+    let last = total - 1;
+    let nblocks = std::cmp::max(1, total / std::cmp::max(block, 1));
+    let b = (raw % nblocks) * block;
+    let p = match class {
+        0 => 0,
+        1 => 1,
+        2 => 2,
+        3 => last,
+        4 => last.saturating_sub(1),
+        5 => (total / 2).saturating_sub(1),
+        6 => total / 2,
+        7 => total / 2 + 1,
+        8 => b.saturating_sub(1),
+        9 => b,
+        10 => b + 1,
+        _ => raw % total,
+    };
+    std::cmp::min(p, last)
+}
+
+fn strategy_pos(t: Tier) -> BoxedStrategy<PosCase> {
+    let w8 = t.pick(1u32, 3u32);
+    (arb_fam(), arb_group(), prop_oneof![2 => 2usize..=4, 6 => 5usize..=6, 6 => Just(7usize), w8 => Just(8usize)], 0u8..=11, any::<u64>())
+        .prop_flat_map(|(fam, group, n, pos_class, pos_raw)| arb_tt(n).prop_map(move |r| PosCase { fam, group, r, pos_class, pos_raw }))
+        .boxed()
+}
+
+/// builds the positioned input; None if the library cannot canonize r (judged elsewhere)
+pub fn positioned_input(c: &PosCase) -> Option<(Tt, Tt, u64, u64)> {
+    let n = c.r.n;
+    let g = c.group;
+    let x = load(c.fam, &c.r).ok()?;
+    let (rep, _, _) = guard(|| canon(x.as_ref(), g)).ok()?;
+    let cm = guard(|| to_model(rep.as_ref())).ok()?;
+    if cm.n != n {
+        return None;
+    }
+    let (_, flips) = volute::verif_walk_sequences(n);
+    let block = if g == Group::Npn { 2 * flips.len() as u64 } else { 2 };
+    let (total, _, _) = walk_element(n, g, u64::MAX);
+    let idx = position(total, block, c.pos_class, c.pos_raw);
+    let (_, perm, mask) = walk_element(n, g, idx);
+    Some((unapply(&cm, &perm, mask), cm, idx, total))
+}
+
+fn run_pos(c: &PosCase) -> Verdict {
+    let n = c.r.n;
+    let g = c.group;
+    let (f, cm, idx, total) = match positioned_input(c) {
+        Some(v) => v,
+        None => return pass(false, vec!["skipped:cannot-position".into()]),
+    };
+    let x = match load(c.fam, &f) {
+        Ok(x) => x,
+        Err(_) => return pass(false, vec!["skipped:unloadable".into()]),
+    };
+    let what = format!("{}::{}_canonization", c.fam.label(), g.name());
+    let (rep, _, _) = lib!(format!("{}(n={})", what, n), canon(x.as_ref(), g));
+    let got = to_model(rep.as_ref());
+    // f is in the orbit of c by construction (the harness applied a group element): the
+    // representatives must coincide; and no representative may exceed a known orbit member
+    ensure!(
+        got.cmp_num(&cm) != std::cmp::Ordering::Greater && got.cmp_num(&f) != std::cmp::Ordering::Greater,
+        format!("walkpos:not-minimum:{}", g.name()),
+        "{} of {} returns {} but {} (smaller) is in the same orbit; the input was built so that the walk meets it at compare point {} of {}",
+        what, f.short(), got.short(), cm.short(), idx, total
+    );
+    if n <= 6 {
+        let o = orbit_min(&f, g);
+        ensure!(got == o.min, format!("walkpos:not-minimum:{}", g.name()), "{} of {} returns {} but the orbit minimum is {} (walk position {} of {})", what, f.short(), got.short(), o.min.short(), idx, total);
+    }
+    let (rep2, _, _) = lib!(format!("{}(n={})", what, n), canon(load(c.fam, &cm).map_err(|_| ()).unwrap_or_else(|_| x.dup()).as_ref(), g));
+    let got2 = to_model(rep2.as_ref());
+    ensure!(got2 == got, format!("walkpos:orbit-variant:{}", g.name()), "{}: {} and {} are in one orbit but get representatives {} and {} (walk position {} of {})", what, f.short(), cm.short(), got.short(), got2.short(), idx, total);
+    pass(f != cm, vec![format!("fam:{}", c.fam.label()), format!("group:{}", g.name()), format!("n:{}", n), format!("pos:{}", c.pos_class)])
+}
+
 pub fn def() -> PropDef {
     PropDef {
         id: "C04",
-        rule: "orbit/orbit-large: cases = (family, group in {P,N,NPN}, f); the library representative must equal (on every assignment) the minimum of the orbit enumerated by the harness's own next-permutation x polarity counter x output bit under its own numeric order, canonization must not panic for any n>=0, and canonizing the representative must return it. Exhaustive for all f of n<=3 (quick) / n<=4 (thorough) x 3 groups x 2 families; generated f (table generator + few-ones + symmetric classes) for n in 0..=6 and, in orbit-large, n in {7,8} (runtime-generated walks, multi-word compare). Non-trivial = f is not its own representative (already-canonical inputs are labelled separately). walk: for n in 0..=8 (thorough 9) the swap/flip sequences obtained through the hook are replayed on abstract (perm, mask, out) state: index ranges, every permutation / complementation / NPN element visited exactly once, closed cycles, no swap while a complementation is pending. invariance: canon(g.f) == canon(f) for a generated group element g applied by the harness, representative <= argument and with the orbit invariant (number of ones, up to complement for N/NPN), and functions with different invariants get different representatives; n up to 8.",
+        rule: "orbit/orbit-large: cases = (family, group in {P,N,NPN}, f); the library representative must equal (on every assignment) the minimum of the orbit enumerated by the harness's own next-permutation x polarity counter x output bit under its own numeric order, canonization must not panic for any n>=0, and canonizing the representative must return it. Exhaustive for all f of n<=3 (quick) / n<=4 (thorough) x 3 groups x 2 families; generated f (table generator + few-ones + symmetric classes) for n in 0..=6 and, in orbit-large, n in {7,8} (runtime-generated walks, multi-word compare). Non-trivial = f is not its own representative (already-canonical inputs are labelled separately). walk: for n in 0..=8 (thorough 9) the swap/flip sequences obtained through the hook are replayed on abstract (perm, mask, out) state: index ranges, every permutation / complementation / NPN element visited exactly once, closed cycles, no swap while a complementation is pending. walkpos: a generated function's representative c is moved by the group element in effect at a chosen compare point of the library's walk (positions: first three, last two, middle-1/middle/middle+1, a block boundary -1/0/+1, uniformly drawn; sequences read through the hook for GENERATION only), so that the walk meets the minimum exactly there; the returned representative must not exceed c, must equal canon(c), and (n<=6) must equal the enumerated orbit minimum; n in 2..=8. invariance: canon(g.f) == canon(f) for a generated group element g applied by the harness, representative <= argument and with the orbit invariant (number of ones, up to complement for N/NPN), and functions with different invariants get different representatives; n up to 8.",
         assumptions: vec![
             "value(), from_blocks()/set_bit() as observation/loading channel",
             "the hook verif_walk_sequences repeats the size dispatch of the real functions; a change to the dispatch itself is only seen by the orbit and invariance sub-checks",
@@ -338,6 +507,15 @@ pub fn def() -> PropDef {
                 exhaustive: Some(enumerate_walk),
                 exhaustive_note: "every n in 0..=8 (quick) / 0..=9 (thorough); complete for the hard-coded tables n<=6",
                 run: run_walk,
+            }),
+            Box::new(Sub {
+                name: "walkpos",
+                rule: "inputs built so that the orbit minimum is met at a chosen compare point of the library's walk (first, last, middle, block boundaries +-1, uniformly drawn): representative must equal that of the known orbit member; orbit oracle for n<=6",
+                strategy: strategy_pos,
+                cases: (1_500, 60_000),
+                exhaustive: None,
+                exhaustive_note: "",
+                run: run_pos,
             }),
             Box::new(Sub {
                 name: "invariance",
